@@ -452,8 +452,10 @@ func (d *GroupDom) Call(in *Interp, site ssa.Instruction, fn *ssa.Function, args
 		}
 		// contract (SELECT/TABLE obligations): for odd 0 < x < 2^(w−1) the result is entry x/2 = x·points[0],
 		// provided points[i] = (2i+1)·points[0]
-		tab := in.Load(site, args[0])
-		arr := tab.(*Agg).Elems[0].(*Agg)
+		arr := tableArray(in.Load(site, args[0]))
+		if arr == nil {
+			in.Undecided(site, "%s: the table is not (a struct around) an array of entries", name)
+		}
 		in.Store(site, args[1], d.nafEntry(in, site, arr, dv.P, name))
 		return nil, true
 	case "(*projLookupTable).SelectInto", "(*affineLookupTable).SelectInto":
@@ -463,8 +465,10 @@ func (d *GroupDom) Call(in *Interp, site ssa.Instruction, fn *ssa.Function, args
 		}
 		// contract (established by the exhaustive 17-digit evaluation and the table-contents check):
 		// for −8 ≤ x ≤ 8 the result is x·points[0], provided points[i] = (i+1)·points[0]
-		tab := in.Load(site, args[0])
-		arr := tab.(*Agg).Elems[0].(*Agg)
+		arr := tableArray(in.Load(site, args[0]))
+		if arr == nil || len(arr.Elems) == 0 {
+			in.Undecided(site, "%s: the table is not (a struct around) an array of entries", name)
+		}
 		base, ok := arr.Elems[0].(*GV)
 		if !ok || base.Invalid {
 			in.Undecided(site, "%s on a table that was never built", name)
@@ -659,4 +663,22 @@ func (d *GroupDom) JoinAtoms(in *Interp, cond Val, t, f Val) Val {
 		}
 	}
 	return Top{"joined values differ"}
+}
+
+// tableArray: the entry array of a loaded lookup table — the value itself (type T [n]entry) or the array-valued
+// field of a struct around it (type T struct{ points [n]entry }).
+func tableArray(tab Val) *Agg {
+	top, ok := tab.(*Agg)
+	if !ok || len(top.Elems) == 0 {
+		return nil
+	}
+	if _, entries := top.Elems[0].(*Agg); !entries {
+		return top // elements are entries already
+	}
+	for _, e := range top.Elems {
+		if a, ok := e.(*Agg); ok {
+			return a
+		}
+	}
+	return nil
 }
